@@ -1,16 +1,26 @@
 package main
 
+// Property driver: selects the functions a property depends on, verifies them,
+// decides the property and writes the evidence file.
+
 import (
+	"crypto/sha256"
+	"encoding/json"
 	"fmt"
+	"go/printer"
 	"os"
 	"path/filepath"
 	"runtime"
 	"sort"
+	"strconv"
+	"strings"
+	"time"
 )
 
 type RunCfg struct {
 	Repo, Mirror, Tier, Out string
 	DumpSynth, Verbose     bool
+	VerifDir               string
 }
 
 func (c *RunCfg) solverCfg(sub string) *SolverCfg {
@@ -71,10 +81,12 @@ func runFuncs(cfg *RunCfg, keys []string) int {
 		for _, o := range r.Obligations {
 			fmt.Printf("   %-14s %-70s inst=%d %s %.2fs %v\n", o.Status, o.Name, len(o.Instances), o.Solver, o.TimeS, o.Props)
 			if o.Status == "failed" || o.Status == "undecided" || o.Status == "cover-failed" {
-				rc = 1
-				fmt.Printf("      %s\n      %s\n", o.Desc, o.SMTFile)
+				if rc == 0 {
+					rc = 1
+				}
+				fmt.Printf("      %s  [%s]\n      %s\n", o.Desc, o.Pos, o.SMTFile)
 				if cfg.Verbose {
-					fmt.Println(o.Model)
+					fmt.Println(modelSummary(o.Model))
 					fmt.Println(o.Output)
 				}
 			}
@@ -93,6 +105,525 @@ func runFuncs(cfg *RunCfg, keys []string) int {
 	return rc
 }
 
-func runProperty(cfg *RunCfg, id string) int { return 2 }
-func runAll(cfg *RunCfg) int                { return 2 }
-func runReplay(cfg *RunCfg, f string) int   { return 2 }
+// modelSummary keeps the interesting part of a model (parameters and small constants).
+func modelSummary(m string) string {
+	var keep []string
+	lines := strings.Split(m, "\n")
+	for i := 0; i < len(lines); i++ {
+		l := lines[i]
+		if strings.Contains(l, "define-fun p_") || strings.Contains(l, "define-fun r_") || strings.Contains(l, "define-fun hv_") {
+			if i+1 < len(lines) {
+				keep = append(keep, strings.TrimSpace(l)+" "+strings.TrimSpace(lines[i+1]))
+			}
+		}
+	}
+	if len(keep) > 40 {
+		keep = keep[:40]
+	}
+	return strings.Join(keep, "\n")
+}
+
+// ---------------------------------------------------------------------------
+
+type KnownFindings struct {
+	Findings []struct {
+		Property   string `json:"property"`
+		Obligation string `json:"obligation"`
+		What       string `json:"what"`
+		Input      string `json:"input"`
+	} `json:"findings"`
+	Fixed []string `json:"fixed"`
+}
+
+type Baseline struct {
+	Properties map[string]map[string]struct {
+		Solver string  `json:"solver"`
+		TimeS  float64 `json:"time_s"`
+	} `json:"properties"`
+}
+
+func readJSON(path string, v interface{}) bool {
+	data, err := os.ReadFile(path)
+	if err != nil {
+		return false
+	}
+	return json.Unmarshal(data, v) == nil
+}
+
+func hasProp(props []string, id string) bool {
+	for _, p := range props {
+		if p == id {
+			return true
+		}
+	}
+	return false
+}
+
+// contractsForProperty: keys of functions (and lemmas) that carry a clause for the property.
+func contractsForProperty(prog *Program, id string) ([]string, []*Contract) {
+	var keys []string
+	for _, k := range prog.CS.Order {
+		c := prog.CS.Funcs[k]
+		if hasProp(c.Props, id) {
+			keys = append(keys, k)
+			continue
+		}
+		for _, cl := range append(append([]*Clause{}, c.Requires...), c.Ensures...) {
+			if hasProp(cl.Props, id) {
+				keys = append(keys, k)
+				break
+			}
+		}
+	}
+	var lemmas []*Contract
+	for _, lm := range prog.CS.Lemmas {
+		if hasProp(lm.Props, id) {
+			lemmas = append(lemmas, lm)
+		}
+	}
+	return keys, lemmas
+}
+
+func srcHash(prog *Program, fi *FuncInfo) string {
+	var b strings.Builder
+	printer.Fprint(&b, prog.Fset, fi.Decl)
+	return fmt.Sprintf("%x", sha256.Sum256([]byte(b.String())))[:16]
+}
+
+type obReport struct {
+	Name      string   `json:"name"`
+	Kind      string   `json:"kind"`
+	Status    string   `json:"status"`
+	Backend   string   `json:"backend"`
+	TimeS     float64  `json:"solver_time_s"`
+	Instances int      `json:"path_instances"`
+	Props     []string `json:"props,omitempty"`
+	Why       string   `json:"in_claim_because"`
+}
+
+func runProperty(cfg *RunCfg, id string) int {
+	start := time.Now()
+	prog := loadOrDie(cfg)
+	rc, _ := checkProperty(cfg, prog, id, start)
+	return rc
+}
+
+func runAll(cfg *RunCfg) int {
+	prog := loadOrDie(cfg)
+	ids := claimedProperties(prog)
+	worst := 0
+	for _, id := range ids {
+		rc, _ := checkProperty(cfg, prog, id, time.Now())
+		if rc > worst {
+			worst = rc
+		}
+	}
+	return worst
+}
+
+func claimedProperties(prog *Program) []string {
+	set := map[string]bool{}
+	for _, c := range prog.CS.Funcs {
+		for _, p := range c.Props {
+			set[p] = true
+		}
+		for _, cl := range append(append([]*Clause{}, c.Requires...), c.Ensures...) {
+			for _, p := range cl.Props {
+				set[p] = true
+			}
+		}
+	}
+	for _, lm := range prog.CS.Lemmas {
+		for _, p := range lm.Props {
+			set[p] = true
+		}
+	}
+	var ids []string
+	for p := range set {
+		ids = append(ids, p)
+	}
+	sort.Strings(ids)
+	return ids
+}
+
+func checkProperty(cfg *RunCfg, prog *Program, id string, start time.Time) (int, map[string]interface{}) {
+	verifDir := cfg.VerifDir
+	if verifDir == "" {
+		verifDir = "/verif"
+	}
+	keys, lemmas := contractsForProperty(prog, id)
+	if len(keys)+len(lemmas) == 0 && len(sweepsFor(id)) == 0 {
+		fmt.Fprintf(os.Stderr, "ENGINE-ERROR: no contract carries property %s\n", id)
+		return 2, nil
+	}
+	// closure over the contracts used as assumptions
+	results := map[string]*UnitResult{}
+	direct := map[string]bool{}
+	var order []string
+	queue := append([]string{}, keys...)
+	for _, k := range keys {
+		direct[k] = true
+	}
+	for len(queue) > 0 {
+		k := queue[0]
+		queue = queue[1:]
+		if _, done := results[k]; done {
+			continue
+		}
+		fi := prog.Funcs[k]
+		if fi == nil {
+			// interface method contract: the implementations are checked against it
+			for _, impl := range prog.implementationsOf(k) {
+				queue = append(queue, impl)
+			}
+			results[k] = &UnitResult{Key: k, Reg: NewRegistry()}
+			continue
+		}
+		if fi.Con != nil && fi.Con.Trusted {
+			results[k] = &UnitResult{Key: k, Reg: NewRegistry(), Notes: []string{"trusted contract (not verified)"}}
+			order = append(order, k)
+			continue
+		}
+		r := VerifyFunc(prog, fi, cfg.Tier)
+		r.SrcHash = srcHash(prog, fi)
+		results[k] = r
+		order = append(order, k)
+		for _, used := range r.UsedContracts {
+			if _, done := results[used]; !done {
+				queue = append(queue, used)
+			}
+		}
+	}
+	for _, lm := range lemmas {
+		r := VerifyLemma(prog, lm)
+		results[lm.Key] = r
+		order = append(order, lm.Key)
+		direct[lm.Key] = true
+		for _, used := range r.UsedContracts {
+			if _, done := results[used]; !done {
+				// lemmas use contracts of functions: verify those as well
+				if fi := prog.Funcs[used]; fi != nil {
+					rr := VerifyFunc(prog, fi, cfg.Tier)
+					rr.SrcHash = srcHash(prog, fi)
+					results[used] = rr
+					order = append(order, used)
+				}
+			}
+		}
+	}
+	// select obligations that belong to the claim
+	var units []*UnitResult
+	engineErrors := []string{}
+	for _, k := range order {
+		r := results[k]
+		if r.EngineError != "" {
+			engineErrors = append(engineErrors, k+": "+r.EngineError)
+		}
+		var sel []*Obligation
+		for _, o := range r.Obligations {
+			switch {
+			case o.Kind == "cover":
+				sel = append(sel, o)
+			case isSafetyKind(o.Kind):
+				// safety obligations count for C13 for functions that claim C13
+				if id == "C13" && direct[k] {
+					sel = append(sel, o)
+				}
+			default:
+				sel = append(sel, o)
+			}
+		}
+		r.Obligations = sel
+		units = append(units, r)
+	}
+	scfg := cfg.solverCfg(id)
+	solveAll(units, scfg)
+	// syntactic sweeps registered for the property
+	sweeps := runSweeps(prog, id)
+
+	var known KnownFindings
+	readJSON(filepath.Join(verifDir, "known_findings.json"), &known)
+	var base Baseline
+	haveBase := readJSON(filepath.Join(verifDir, "baseline_obligations.json"), &base)
+
+	var reports []obReport
+	nObl, nDis, nCover, nCoverOK := 0, 0, 0, 0
+	var violations []string
+	var undecided []string
+	var knownHit []string
+	var samples []interface{}
+	backendTime := map[string]float64{}
+	replayDir := filepath.Join(cfg.Out, "replays")
+	os.MkdirAll(replayDir, 0o755)
+	seen := map[string]bool{}
+	for _, r := range units {
+		for _, o := range r.Obligations {
+			why := "dependency (contract used as assumption)"
+			if direct[r.Key] {
+				why = "carries property clause"
+			}
+			if o.Kind == "cover" {
+				nCover++
+				if o.Status == "cover-ok" {
+					nCoverOK++
+				} else {
+					violations = append(violations, writeReplay(replayDir, id, o, r, "vacuity: "+o.Desc+" is unsatisfiable", false, prog, cfg))
+				}
+				continue
+			}
+			seen[o.Name] = true
+			nObl++
+			backendTime[o.Solver] += o.TimeS
+			reports = append(reports, obReport{Name: o.Name, Kind: o.Kind, Status: o.Status, Backend: o.Solver, TimeS: round3(o.TimeS), Instances: len(o.Instances), Props: o.Props, Why: why})
+			switch o.Status {
+			case "discharged":
+				nDis++
+				if len(samples) < 4 && o.SMTFile != "" && direct[r.Key] {
+					samples = append(samples, map[string]interface{}{"obligation": o.Name, "kind": o.Kind, "clause": o.Desc, "goal": short(o.Instances[0].Goal), "path_facts": len(o.Instances[0].PC), "answer": "unsat", "backend": o.Solver})
+				}
+			case "failed", "undecided":
+				if kf := matchKnown(&known, id, o.Name); kf != "" {
+					knownHit = append(knownHit, kf)
+					fmt.Printf("KNOWN-FINDING: property=%s %s\n", id, kf)
+					continue
+				}
+				isNew := haveBase && base.Properties[id] != nil
+				if isNew {
+					_, inBase := base.Properties[id][o.Name]
+					isNew = !inBase
+				}
+				if o.Status == "undecided" {
+					undecided = append(undecided, o.Name)
+				}
+				reason := "obligation refuted by the solver (counterexample model attached)"
+				if o.Status == "undecided" {
+					reason = "obligation no longer discharged (all solvers unknown/timeout)"
+					if isNew {
+						reason += "; new-obligation (not in the baseline of the pinned tree)"
+					}
+				}
+				violations = append(violations, writeReplay(replayDir, id, o, r, reason, o.Status == "failed", prog, cfg))
+			}
+		}
+	}
+	for _, s := range sweeps {
+		nObl++
+		reports = append(reports, obReport{Name: s.Name, Kind: "sweep", Status: s.Status, Backend: "syntactic sweep over the typed AST", Instances: s.Sites, Why: "carries property clause"})
+		if s.Status == "discharged" {
+			nDis++
+			if len(samples) < 6 {
+				samples = append(samples, map[string]interface{}{"obligation": s.Name, "kind": "sweep", "sites": s.Sites, "detail": s.Detail})
+			}
+		} else {
+			if kf := matchKnown(&known, id, s.Name); kf != "" {
+				knownHit = append(knownHit, kf)
+				fmt.Printf("KNOWN-FINDING: property=%s %s\n", id, kf)
+				continue
+			}
+			o := &Obligation{Name: s.Name, Kind: "sweep", Desc: s.Detail, Status: "failed", Output: strings.Join(s.Offenders, "\n")}
+			violations = append(violations, writeReplay(replayDir, id, o, &UnitResult{Key: s.Name, Reg: NewRegistry()}, "sweep found offending site(s): "+strings.Join(s.Offenders, "; "), false, prog, cfg))
+		}
+	}
+	// baseline obligations that disappeared are reported (not a violation by themselves)
+	var missing []string
+	if haveBase {
+		for name := range base.Properties[id] {
+			if !seen[name] && !strings.HasPrefix(name, "sweep.") {
+				missing = append(missing, name)
+			}
+		}
+		sort.Strings(missing)
+	}
+
+	// evidence
+	var funcs []map[string]interface{}
+	trusted := map[string]bool{}
+	assumptions := map[string]bool{}
+	for _, r := range units {
+		f := map[string]interface{}{"function": r.Key, "source_sha256_16": r.SrcHash, "obligations": len(r.Obligations), "in_claim": "dependency"}
+		if direct[r.Key] {
+			f["in_claim"] = "direct"
+		}
+		if len(r.Unmodelled) > 0 {
+			f["partially_modelled"] = r.Unmodelled
+		}
+		if len(r.HavocCalls) > 0 {
+			f["calls_without_contract_havocked"] = r.HavocCalls
+		}
+		funcs = append(funcs, f)
+		for _, e := range r.UsedExt {
+			trusted["assumed contract (extlib): "+e] = true
+		}
+		for _, n := range r.Notes {
+			assumptions[n] = true
+		}
+		for _, h := range r.HavocCalls {
+			assumptions["call of "+h+" has no contract: results and its syntactic write-set are havocked (over-approximation)"] = true
+		}
+	}
+	for _, a := range engineAssumptions {
+		assumptions[a] = true
+	}
+	for _, s := range prog.CS.Sources {
+		assumptions[s] = true
+	}
+	tb := sortedStrings(trusted)
+	tb = append(tb, "the VC generator /verif/engine itself (weakest-precondition style symbolic execution over go/ast+go/types)", "SMT solvers z3 5.1.0 (z3-new), z3 4.8.12, cvc5 1.0.3", "go/packages + go/types for loading and typing /repo's working tree")
+	ev := map[string]interface{}{
+		"property_id": id,
+		"tier":        cfg.Tier,
+		"seed":        seedFromEnv(),
+		"level":       "proof",
+		"wall_s":      round3(time.Since(start).Seconds()),
+		"violations":  len(violations),
+		"assumptions": sortedStrings(assumptions),
+		"coverage": map[string]interface{}{
+			"obligations":              nObl,
+			"discharged":               nDis,
+			"checker_cmd":              "bin/vcheck -property " + id + " -tier " + cfg.Tier,
+			"trusted_base":             tb,
+			"functions_under_contract": funcs,
+			"per_obligation":           reports,
+			"cover_checks":             map[string]int{"total": nCover, "satisfiable_or_not_refuted": nCoverOK},
+			"undecided":                undecided,
+			"known_findings_hit":       knownHit,
+			"solver_time_s_by_backend": roundMap(backendTime),
+			"baseline_obligations_missing_now": missing,
+			"bounded_standins":         []string{},
+			"samples":                  samples,
+			"engine_errors":            engineErrors,
+			"explanation":              "every obligation is generated from /repo's current working tree on this run; a function is verified against its own contract and callers see only callee contracts",
+		},
+	}
+	os.MkdirAll(filepath.Join(verifDir, "evidence"), 0o755)
+	data, _ := json.MarshalIndent(ev, "", " ")
+	os.WriteFile(filepath.Join(verifDir, "evidence", id+".json"), data, 0o644)
+
+	if len(engineErrors) > 0 {
+		for _, e := range engineErrors {
+			fmt.Fprintln(os.Stderr, "ENGINE-ERROR:", e)
+		}
+		return 2, ev
+	}
+	if nObl == 0 {
+		fmt.Fprintf(os.Stderr, "ENGINE-ERROR: property %s generated zero obligations (vacuity guard)\n", id)
+		return 2, ev
+	}
+	for _, v := range violations {
+		fmt.Println(v)
+	}
+	fmt.Printf("property %s: %d obligations, %d discharged, %d cover checks ok, %d known findings, %.1fs\n", id, nObl, nDis, nCoverOK, len(knownHit), time.Since(start).Seconds())
+	if len(violations) > 0 {
+		return 1, ev
+	}
+	return 0, ev
+}
+
+var engineAssumptions = []string{
+	"integers are mathematical (no overflow); all integers in scope are lengths, indices and small counters",
+	"slices have value semantics: two slice values never share a backing array (append aliasing is not modelled)",
+	"jennifer statements are immutable terms of a free algebra: in-place mutation through a shared *jen.Statement (missing Clone) is not modelled",
+	"external (non-goverter) functions do not write goverter data structures and are deterministic functions of their arguments unless listed as impure in extlib.go",
+	"termination is not proved except where a loop carries a decreases clause",
+}
+
+func seedFromEnv() int {
+	if s := os.Getenv("VERIF_SEED"); s != "" {
+		if n, err := strconv.Atoi(s); err == nil {
+			return n
+		}
+	}
+	return 0
+}
+
+func round3(f float64) float64 { return float64(int(f*1000+0.5)) / 1000 }
+
+func roundMap(m map[string]float64) map[string]float64 {
+	out := map[string]float64{}
+	for k, v := range m {
+		if k == "" {
+			k = "none"
+		}
+		out[k] = round3(v)
+	}
+	return out
+}
+
+func isSafetyKind(k string) bool {
+	switch k {
+	case "nil", "index", "slice", "panic", "assert-type", "nilmap", "div":
+		return true
+	}
+	return false
+}
+
+func matchKnown(k *KnownFindings, id, ob string) string {
+	for _, f := range k.Findings {
+		if f.Property == id && f.Obligation == ob {
+			return fmt.Sprintf("%s fails: %s (input: %s)", ob, f.What, f.Input)
+		}
+	}
+	return ""
+}
+
+// implementationsOf: function keys implementing an interface-method contract key
+// ("builder.Generator.Build" -> "generator.generator.Build").
+func (p *Program) implementationsOf(ifaceKey string) []string {
+	con := p.CS.Funcs[ifaceKey]
+	if con == nil {
+		return nil
+	}
+	m := p.lookupInterfaceMethod(con)
+	if m == nil {
+		return nil
+	}
+	var out []string
+	for k, fi := range p.Funcs {
+		if fi.Obj == nil || fi.Obj.Name() != m.Name() {
+			continue
+		}
+		if p.implementsMethod(fi, m) {
+			out = append(out, k)
+		}
+	}
+	sort.Strings(out)
+	return out
+}
+
+func writeReplay(dir, id string, o *Obligation, r *UnitResult, reason string, hasModel bool, prog *Program, cfg *RunCfg) string {
+	path := filepath.Join(dir, id+"-"+sanitize(o.Name)+".json")
+	rep := map[string]interface{}{
+		"property":      id,
+		"obligation":    o.Name,
+		"kind":          o.Kind,
+		"clause":        o.Desc,
+		"position":      o.Pos,
+		"reason":        reason,
+		"smt_file":      o.SMTFile,
+		"solver_output": o.Output,
+		"model":         modelSummary(o.Model),
+		"function":      r.Key,
+	}
+	suffix := " no-failing-input-found"
+	if hasModel {
+		if ok, detail := tryReplay(prog, cfg, o, r); ok {
+			rep["replay"] = detail
+			suffix = ""
+		} else {
+			rep["replay"] = detail
+		}
+	}
+	data, _ := json.MarshalIndent(rep, "", " ")
+	os.WriteFile(path, data, 0o644)
+	return fmt.Sprintf("VIOLATION property=%s replay=%s%s", id, path, suffix)
+}
+
+func runReplay(cfg *RunCfg, f string) int {
+	data, err := os.ReadFile(f)
+	if err != nil {
+		fmt.Fprintln(os.Stderr, err)
+		return 2
+	}
+	fmt.Println(string(data))
+	return 0
+}
